@@ -195,6 +195,34 @@ def run(ctx, report):
                 R3.violation(inst, '%s:%s' % (inst, norm(n)), '%s: %s -- %s' % (inst, norm(n), what), where(ea, n))
         else:
             R3.ok(inst, nontrivial=bool(name.startswith('eval')))
+    # truth tests on fixed-width integers need moduint.__bool__ (python 3 ignores __nonzero__)
+    mi = ctx.mod('modint')
+    has_bool = {}
+    for cname in ('moduint',):
+        try:
+            b = mi.method(cname, '__bool__')
+        except AnalysisError:
+            b = None
+        okb = False
+        if b is not None:
+            rets = [n for n in ast.walk(b) if isinstance(n, ast.Return)]
+            okb = bool(rets) and u(rets[0].value).replace(' ', '') in ('self.arg!=0', 'bool(self.arg)', 'self.arg!=0L')
+        has_bool[cname] = okb
+    n_tt = 0
+    for name, fn in sorted(methods.items()):
+        params = [a.arg for a in fn.args.args[1:]]
+        for n in walk_no_nested(fn):
+            if isinstance(n, (ast.If, ast.While)) and isinstance(n.test, ast.BinOp) and isinstance(n.test.op, (ast.BitAnd, ast.BitOr, ast.BitXor, ast.Add, ast.Sub, ast.RShift, ast.LShift)) \
+                    and any(isinstance(x, ast.Name) and x.id in params for x in ast.walk(n.test)):
+                n_tt += 1
+                inst = 'truth-test %s:%s' % (name, norm(n.test))
+                if all(has_bool.values()):
+                    R3.ok(inst, sample='%s: `if %s` relies on moduint.__bool__ (defined: arg != 0)' % (name, norm(n.test)))
+                else:
+                    R3.violation(inst, 'truth-test:moduint.__bool__', 'eval_abs.%s tests the truth of the fixed-width integer `%s`, but moduint/modint define no __bool__ returning arg != 0: '
+                                 'the test is always true' % (name, norm(n.test)), where(ea, n), witness='eval_abs.my_bsf(uint32(8)) == 0')
+    if n_tt < 2:
+        raise AnalysisError('expected the truth tests of my_bsf/my_bsr on fixed-width integers, found %d' % n_tt)
     mp = ea.methods('mpool')
     for name, fn in sorted(mp.items()):
         inst = 'mpool.%s' % name
@@ -356,6 +384,27 @@ def run(ctx, report):
                              witness='8-bit operand, constant count >= 9' if 'modulo' in ' '.join(problems) else None)
             else:
                 R5.ok(inst, sample='%r: ring of %s positions, count mod ring, complementary shifts' % (op, 'op_size+1' if carry else 'op_size'))
+        elif op == 'parity':
+            # x86 PF: parity of the LOW BYTE of the result; the simplifier's fold (expression_helper.parity) is the sibling
+            problems = []
+            calls = [n for n in ast.walk(fn0) if isinstance(n, ast.Call) and isinstance(n.func, ast.Attribute) and u(n.func.value) == 'self' and n.func.attr in methods]
+            tgt = methods.get(calls[0].func.attr) if calls else None
+            sib = hlp.funcs.get('parity')
+            if tgt is None or sib is None:
+                problems.append('parity helper not found')
+            else:
+                if [u(a) for a in calls[0].args] != ['args[0]']:
+                    problems.append('helper is called with %s' % [u(a) for a in calls[0].args])
+                for who, f, skip in (('eval_abs.%s' % tgt.name, tgt, 1), ('expression_helper.parity', sib, 0)):
+                    prm = f.args.args[skip].arg if len(f.args.args) > skip else None
+                    masks = [n for n in ast.walk(f) if isinstance(n, ast.BinOp) and isinstance(n.op, ast.BitAnd) and prm and u(n.left).strip('()') == prm]
+                    if not masks or not (isinstance(masks[0].right, ast.Constant) and masks[0].right.value == 0xFF):
+                        problems.append('%s does not reduce its operand to the low byte (& 0xFF): %s' % (who, u(masks[0]) if masks else 'no mask'))
+            if problems:
+                R5.violation(inst, 'denot:parity:%s' % ';'.join(problems)[:80], 'parity is the x86 PF of the low byte of its operand: %s' % '; '.join(problems), where(ea, tgt or fn0),
+                             witness='parity(r32) with r32 = 0x100 must be 1')
+            else:
+                R5.ok(inst, sample="'parity': eval_abs.parity and expression_helper.parity both count the bits of operand & 0xFF")
         else:
             R5.ok(inst + ':not-judged', nontrivial=False)
 
@@ -378,5 +427,8 @@ MUTANTS = [
     ('or-is-xor', 'miasmx/expression/expression_eval_abstract.py', "            ret_value = ret_value | a\n", "            ret_value = ret_value ^ a\n", 'C06.D5'),
     ('rcl-dir', 'miasmx/expression/expression_eval_abstract.py', "        rez = (tmpa<<r) | (tmpa >> (op_size+uint64(1)-r))", "        rez = (tmpa>>r) | (tmpa << (op_size+uint64(1)-r))", 'C06.D5'),
     ('mulhi-shift', 'miasmx/expression/expression_eval_abstract.py', "        ret_value =  (a*b) >> uint64(op_size)", "        ret_value =  (a*b) >> uint64(op_size-1)", 'C06.D5'),
+    ('parity-wide', 'miasmx/expression/expression_eval_abstract.py', "    def parity(self, a):\n        tmp = (a)&0xFF", "    def parity(self, a):\n        tmp = (a)&0xFFFF", 'C06.D5'),
+    ('no-bool', 'miasmx/tools/modint.py', "    def __bool__(self):\n        return self.arg != 0\n    __nonzero__ = __bool__\n", "", 'C06.D3'),
+    ('bsf-two-args-only', 'miasmx/expression/expression_eval_abstract.py', "        if len(args) == 1:\n            return self.my_bsf(args[0])\n", "", 'C06.D1'),
     ('no-slice-eval', 'miasmx/expression/expression_eval_abstract.py', "                      ExprSlice: self.eval_ExprSlice,\n", "", 'C06.D4'),
 ]
